@@ -98,3 +98,109 @@ Example check_pl_selftest :
   /\ check_pl (mk_pl 1 1 2 (2 # 5) [3; 9; 1; 3]%Z [true; false; true; true]
                   [true; false; true; true] [1 # 3; 0; 1 # 3; 1 # 3]%Q 0 [0%nat] (1 # 100000) (1 # 1000)) = 3%Z.
 Proof. vm_compute. repeat split. Qed.
+
+(* ================================================================== calculate_entropy (rl4co.utils.ops)
+   One case = ONE call calculate_entropy(logprobs[B, T, N]) whose logprobs are the stacked outputs of the real
+   process_logits on logits z * ln 2; the model recomputes every step distribution (plQ, exact rationals) and evaluates
+   Decoding/Entropy.v's entropy_steps at (QcF, lnQ) (Decoding/EntropyInst.v).  Result codes:
+     0 agree      21 a step is outside the model's well-formedness      22 number of rows differs
+     1000 * (row + 1) + 3  the value of that row differs by more than the tolerance
+     1000 * (row + 1) + 4  ... and has the wrong SIGN (model > tol, implementation < -tol)                          *)
+From RL4CO Require Import Decoding.Entropy Decoding.EntropyInst Decoding.BatchGuards.
+
+Record ent_case := mk_ent {
+  n_tm : Z; n_td : Z; n_topk : nat;
+  n_rows : list (list (list Z * list bool));      (* batch row |-> decoding step |-> (z, mask) *)
+  n_obs : list Q;                                 (* calculate_entropy's output, exact value of the float *)
+  n_tol : Q
+}.
+
+Definition ent_step_wfb (c : ent_case) (zm : list Z * list bool) : bool :=
+  pl_wfb QcF Z (snd zm) 0%Qc (fst zm) && forallb (fun z => Z.eqb ((z * n_tm c) mod n_td c) 0) (fst zm).
+Definition ent_step_dist (c : ent_case) (zm : list Z * list bool) : list Qc :=
+  plQ (fun z => z) (tdiv (n_tm c) (n_td c)) (snd zm) 0%Qc (n_topk c) (fst zm).
+Definition ent_row_model (c : ent_case) (row : list (list Z * list bool)) : Qc :=
+  entropy_stepsQ (map (ent_step_dist c) row).
+
+Fixpoint check_ent_rows (c : ent_case) (k : Z) (rows : list (list (list Z * list bool))) (obs : list Q) : Z :=
+  match rows, obs with
+  | [], [] => 0%Z
+  | row :: rows', o :: obs' =>
+      let hm := ent_row_model c row in
+      let tol := toQc (n_tol c) in
+      if Qcleb (Qcabs (toQc o - hm)%Qc) tol then check_ent_rows c (k + 1)%Z rows' obs'
+      else if Qcleb (toQc o) (Qcopp tol) && negb (Qcleb hm tol) then (1000 * k + 4)%Z else (1000 * k + 3)%Z
+  | _, _ => 22%Z
+  end.
+
+Definition check_ent (c : ent_case) : Z :=
+  if negb ((0 <? n_tm c)%Z && (0 <? n_td c)%Z && forallb (fun row => forallb (ent_step_wfb c) row) (n_rows c)) then 21%Z
+  else check_ent_rows c 1%Z (n_rows c) (n_obs c).
+
+(* the audit's input: calculate_entropy(log([[[.5, .5]]])) = + ln 2 = 0.6931...; its negative and its half are rejected *)
+Example check_ent_selftest :
+  check_ent (mk_ent 1 1 0 [[([0; 0]%Z, [true; true])]] [6931472 # 10000000]%Q (1 # 1000000)) = 0%Z /\
+  check_ent (mk_ent 1 1 0 [[([0; 0]%Z, [true; true])]] [-6931472 # 10000000]%Q (1 # 1000000)) = 1004%Z /\
+  check_ent (mk_ent 1 1 0 [[([0; 0]%Z, [true; true])]] [3465736 # 10000000]%Q (1 # 1000000)) = 1003%Z /\
+  check_ent (mk_ent 1 1 0 [[([0; 0]%Z, [true; true])]; [([1; 0; 0]%Z, [true; true; true]); ([5; 7]%Z, [true; false])]]
+                    [6931472 # 10000000; 10397208 # 10000000]%Q (1 # 1000000)) = 0%Z.
+Proof. vm_compute. repeat split. Qed.
+
+(* ---- the guard `assert entropy.isfinite().all()`: entry classes per row (0 finite, 1 -inf, 2 +inf, 3 nan), observed:
+   did the call raise?   codes: 0 agree, 25 model raises / implementation returned, 26 implementation raised / model not *)
+Definition entg_case := (list (list nat) * bool)%type.
+Definition check_entg (c : entg_case) : Z :=
+  match c with (rows, raised) =>
+    let m := negb (entropy_guard rows) in
+    if Bool.eqb m raised then 0%Z else if m then 25%Z else 26%Z
+  end.
+
+(* ================================================================== batch-level guards of greedy / sampling / BeamSearch._step
+   rows = (probabilities exp(logprob) as exact rationals, mask) -- the masks need NOT be the ones the probabilities were
+   made with; sel = the selection handed to the guard (BeamSearch._step with a stubbed _make_beam_step); observed:
+   None = "infeasible action selected" raised, Some actions = returned.
+   kind 0 greedy(logprobs, mask), 1 sampling(logprobs, mask), 2 BeamSearch._step.
+     0 agree   31 model raises, implementation returned   32 model returns, implementation raised
+     33 returned actions are not the model's (greedy: row-wise first arg-max; beam step: the given selection)
+     34 sampling returned an action that its row's mask forbids or that has probability 0
+     35 sampling: some row has no admissible action of positive probability (the loop cannot end: input outside the stream) *)
+Record guard_case := mk_guard {
+  g_kind : nat; g_rows : list (list Q * list bool); g_sel : list nat; g_obs : option (list nat) }.
+
+Definition g_probs (c : guard_case) : list (list Qc * list bool) := map (fun r => (map toQc (fst r), snd r)) (g_rows c).
+Fixpoint eqb_nats (a b : list nat) : bool :=
+  match a, b with [] , [] => true | x :: a', y :: b' => Nat.eqb x y && eqb_nats a' b' | _, _ => false end.
+Definition row_can_sample (r : list Qc * list bool) : bool :=
+  existsb (fun pm => snd pm && negb (Qcleb (fst pm) 0%Qc)) (combine (fst r) (snd r)).
+
+Definition check_guard (c : guard_case) : Z :=
+  let rows := g_probs c in
+  let masks := map snd rows in
+  match g_kind c with
+  | O => match greedy_batch (K := QcF) rows, g_obs c with
+         | None, None => 0%Z | None, Some _ => 31%Z | Some _, None => 32%Z
+         | Some a, Some b => if eqb_nats a b then 0%Z else 33%Z
+         end
+  | S O => if negb (forallb row_can_sample rows) then 35%Z else
+           match g_obs c with
+           | None => 32%Z
+           | Some b => if Nat.eqb (length b) (length rows) && guard_batch masks b
+                          && forallb (fun rb => negb (Qcleb (nth (snd rb) (fst (fst rb)) 0%Qc) 0%Qc)) (combine rows b)
+                       then 0%Z else 34%Z
+           end
+  | _ => match beam_step_guard masks (g_sel c), g_obs c with
+         | None, None => 0%Z | None, Some _ => 31%Z | Some _, None => 32%Z
+         | Some a, Some b => if eqb_nats a b then 0%Z else 33%Z
+         end
+  end.
+
+(* the audit's inputs *)
+Example check_guard_selftest :
+  check_guard (mk_guard 0 [([1 # 4; 3 # 4]%Q, [true; false]); ([3 # 4; 1 # 4]%Q, [true; true])] [] None) = 0%Z /\
+  check_guard (mk_guard 0 [([1 # 4; 3 # 4]%Q, [true; false]); ([3 # 4; 1 # 4]%Q, [true; true])] [] (Some [1; 0]%nat)) = 31%Z /\
+  check_guard (mk_guard 1 [([1 # 50; 49 # 50]%Q, [true; false]); ([1 # 2; 1 # 2]%Q, [true; true])] [] (Some [0; 0]%nat)) = 0%Z /\
+  check_guard (mk_guard 1 [([1 # 50; 49 # 50]%Q, [true; false]); ([1 # 2; 1 # 2]%Q, [true; true])] [] None) = 32%Z /\
+  check_guard (mk_guard 2 [([1 # 2; 1 # 2]%Q, [true; false]); ([1 # 2; 1 # 2]%Q, [true; true])] [1; 0]%nat (Some [1; 0]%nat)) = 31%Z /\
+  check_guard (mk_guard 2 [([1 # 2; 1 # 2]%Q, [true; false]); ([1 # 2; 1 # 2]%Q, [true; true])] [1; 0]%nat None) = 0%Z /\
+  check_entg ([[0; 0]; [2; 0]]%nat, true) = 0%Z /\ check_entg ([[0; 0]; [2; 0]]%nat, false) = 25%Z.
+Proof. vm_compute. repeat split. Qed.
